@@ -5,8 +5,9 @@ access by access (one step = one atomic table access / one Redis command).  TLC 
 OnlyOwnerReleases over every interleaving of those steps and clock ticks (2 owners) and over every sequence of whole
 calls and ticks (3 owners), capacities 1, 2, unbounded.  Binding: one shortest call sequence per distinct reachable
 state of the model (emitted by TLC), seeded random programs, command-level interleavings (redis, scheduled through
-the RESP server's gate) and concurrent goroutines (in-memory) are executed on the real services; every call with
-arguments and result is validated by L2LockTrace, which evaluates the C28 invariants after every event.
+the RESP server's gate) and concurrent goroutines (in-memory; simultaneous calls and races for an expired lock) are
+executed on the real services; every call with arguments and result is validated by L2LockTrace, which evaluates the
+C28 invariants after every event.
 
 Findings.  The model contains three named finding actions (what the code does today, contradicting C28):
 evict (in-memory insert into a full shard evicts a live lock), delete (redis Unlock deletes by key), shorten (redis
@@ -82,8 +83,11 @@ _lock = threading.Lock()
 _seq = [0]
 
 
+MAX_REJ_PER_CHUNK = 3
+
+
 def _validate_chunk(c, off, part, cfg, timeout):
-    ends, rej = {}, []
+    ends, rej, skipped = {}, [], []
     pending = [(off + j, t[0], norm(t[1]) + [dict(FIELDS, ev="End", id=off + j)]) for j, t in enumerate(part)]
     while pending:
         lines, index = [], []
@@ -127,7 +131,13 @@ def _validate_chunk(c, off, part, cfg, timeout):
             with _lock:
                 c.cov["traces_validated_against_impl"] += ti
             pending = pending[ti + 1:]
-    return ends, rej
+            if len(rej) >= MAX_REJ_PER_CHUNK:
+                # the verdict is settled (violations); the rest of this chunk is left unjudged rather than paying one
+                # TLC run per further rejected trace
+                for gid, name, evs in pending:
+                    skipped.append(gid)
+                pending = []
+    return ends, rej, skipped
 
 
 def validate(c, traces, cfg="L2LockTrace.cfg", chunk=None, timeout=1500, par=4):
@@ -141,9 +151,11 @@ def validate(c, traces, cfg="L2LockTrace.cfg", chunk=None, timeout=1500, par=4):
     with ThreadPoolExecutor(max_workers=par) as ex:
         futs = [ex.submit(_validate_chunk, c, off, traces[off:off + chunk], cfg, timeout) for off in range(0, len(traces), chunk)]
         for f in futs:
-            e, r = f.result()
+            e, r, sk = f.result()
             ends.update(e)
             rej += r
+            for gid in sk:
+                ends[gid] = None          # not judged
     return ends, rej
 
 
@@ -166,6 +178,9 @@ def judge(c, traces, stats):
     for i, (name, evs) in enumerate(traces):
         st = stats.setdefault(name.split(":")[0], {})
         if i in rejected:
+            continue
+        if i in ends and ends[i] is None:
+            st["not_judged_after_rejections"] = st.get("not_judged_after_rejections", 0) + 1
             continue
         sets = ends.get(i)
         if not sets:
@@ -268,9 +283,11 @@ def _run(c, design, plan):
     cov["interleaved_not_judged_other_command_protocol"] = n_all - len(tr_ilv)
     # ------------------------------------------------------------------ 4. mem: concurrent goroutines
     strs = dict(count=c.pick(100, 1000), maxlen=4, variants=["mem"], caps=[1, 2, INF], owners=3, keys=3, maxttl=2, tickpct=0,
-                seed=c.seed + 2000)
+                seed=c.seed + 2000, race=c.pick(40, 400), rounds=25)
     tr_str, info = drive("stress", strs, "str")
     cov["stress"] = info
+    if info.get("race_timing_dropped", 0) > max(3, strs["race"] // 4):
+        raise vlib.InfraError("too many expiry-race traces could not be timed reliably: %s" % info)
     # one validation batch for the three kinds (fewer JVM starts), judged per kind
     groups = (("random", tr_rnd), ("interleaved", tr_ilv), ("concurrent", tr_str))
     merged = [(kind + ":" + n, e) for kind, tr in groups for n, e in tr]
